@@ -42,6 +42,10 @@ LeafSeq == << T(<<"t">>), Out(Var(<<"x">>)), Out(Var(<<"forloop", "Counter">>)),
             [t |-> "firstof", args |-> <<Var(<<"s0">>), Var(<<"x">>), Lit(S(<<"z">>))>>],
             [t |-> "firstof", args |-> <<Var(<<"n0">>), Var(<<"z0">>), Lit(S(<<"y">>))>>],
             Out(Var(<<"forloop", "Parentloop", "Parentloop", "Counter">>)),
+            [t |-> "templatetag", name |-> "openblock"],
+            [t |-> "widthratio", a |-> Var(<<"forloop", "Counter">>), m |-> Lit(I(3)), w |-> Lit(I(100)), as |-> ""],
+            [t |-> "spaceless", body |-> <<T(<<"<", "i", ">", " ", "<", "b", ">">>), Out(Var(<<"x">>)), T(<<"<", "/", "b", ">", " ", "NL", "<", "/", "i", ">">>)>>],
+            [t |-> "comment", body |-> <<Out(Var(<<"x">>)), [t |-> "cycle", args |-> <<Lit(S(<<"a">>))>>, as |-> "", silent |-> FALSE]>>],
             [t |-> "ifequal", neg |-> FALSE, a |-> Var(<<"x">>), b |-> Lit(I(1)), body |-> <<T(<<"=">>)>>, els |-> <<T(<<"#">>)>>],
             [t |-> "ifequal", neg |-> TRUE, a |-> Var(<<"x">>), b |-> Lit(S(<<"b">>)), body |-> <<T(<<"!">>)>>, els |-> <<>>] >>
 Leaves == {LeafSeq[i] : i \in DOMAIN LeafSeq}
